@@ -39,7 +39,7 @@ def ops_strategy():
     sref = st.sampled_from(["p-bidi0", "p-bidi0", "p-bidi1", "p-uni0", "p-uni1", "s-bidi0", "p-bidi-last", "p-bidi-over", "p-uni-last", "p-uni-over"])
     stream = st.tuples(st.just("stream"), sref, which, rel, st.sampled_from([0, 1, 1, 10, 500, 1200]), st.booleans())
     reset = st.tuples(st.just("reset"), sref, which, rel)
-    simple = st.sampled_from([("ack",), ("ack",), ("timer",), ("sut_open",), ("sut_write",), ("challenges", 40), ("challenges", 500), ("crypto_far",), ("crypto_grow",), ("crypto_beyond",), ("ncid_churn",), ("ncid_churn_quiet",), ("dup_last",), ("never_finished", 30)])
+    simple = st.sampled_from([("ack",), ("ack",), ("timer",), ("sut_open",), ("sut_write",), ("challenges", 40), ("challenges", 500), ("crypto_far",), ("crypto_grow",), ("crypto_beyond",), ("ncid_churn",), ("ncid_churn_quiet",), ("ncid_rotate", 1), ("ncid_rotate", 12), ("dup_last",), ("never_finished", 30)])
     # an empty FIN at offset 0 fixes the final size at 0 (a falsy value): whatever follows on that stream exceeds it
     fin0 = st.tuples(st.just("stream"), st.sampled_from(["p-bidi0", "p-bidi0", "p-bidi1", "p-uni0"]), st.just("stream"), st.just("zero"), st.just(0), st.just(True))
     follow = st.tuples(st.just("stream"), st.sampled_from(["p-bidi0", "p-bidi0", "p-bidi1", "p-uni0"]), st.just("stream"), st.sampled_from(["small", "half", "lim"]), st.sampled_from([1, 10]), st.booleans())
@@ -366,6 +366,19 @@ def run_history(ctx, case):
                     sut_call("receive_datagram", tk.send_frames, [{"name": "new_connection_id", "seq": seq, "retire_prior_to": seq, "cid": bytes([0xD0, i]) + bytes(6), "reset_token": bytes(16)}])
                     bounds(("ncid_churn", i))
                     if i % 7 == 6:
+                        observe()
+            elif kind == "ncid_rotate":
+                # the peer replaces exactly as many connection IDs as it retires: never more than the advertised 8 are active
+                for i in range(op[1]):
+                    if dead[0] or close_code() is not None:
+                        break
+                    seq = 8 + i
+                    sut_call("receive_datagram", tk.send_frames, [{"name": "new_connection_id", "seq": seq, "retire_prior_to": i + 1, "cid": bytes([0xD2, i]) + bytes(6), "reset_token": bytes([i]) * 16}])
+                    if close_code() == 0x9:
+                        ctx.violation("peer-within-limits-accused", "NEW_CONNECTION_ID(seq=%d, retire_prior_to=%d) after the 8 connection IDs of the handshake keeps 8 active, the SUT (%s) advertised active_connection_id_limit 8 but closed with CONNECTION_ID_LIMIT_ERROR (%s)" % (seq, i + 1, role, tk.sut._close_event.reason_phrase), case)
+                        dead[0] = True
+                    bounds(("ncid_rotate", i))
+                    if i % 3 == 2:
                         observe()
             elif kind == "dup_last":
                 if last_pkt[0] is not None and close_code() is None:
